@@ -62,7 +62,8 @@ def run(chk, ctx):
                        "(json.loads, dump column counts, statuses/tallies/quota/totals of dump row vs JSON action vs report block vs E.erecord); "
                        "distinct = (method, arithmetic, outcome, ties, transfers, defeats, seats, candidates) and for (b) also "
                        "(pending shown, zero-vote defeated group, non-ASCII, header extras)")
-    cases, res = cc.run(chk, ctx, 'record', ORACLES, 700, 60000, tweak=tweak)
+    cases, res = cc.run(chk, ctx, 'record', ORACLES, 700, 60000, tweak=tweak,
+                        extra=[('directed-tiny', 80, 4000, None, ['tinyvote'])])
     for blt, o, d in ctx.get('disagreement_cases', [])[:2]:
         chk.violation("count trace: model and implementation disagree", dict(blt=blt, options=o, first_difference=d), found_input=False)
     # ---- (b) renderings
